@@ -109,11 +109,42 @@ def run(ctx):
         ctx.fail_closed("W3", "fiin::FileInfo / FIINEntry not found")
     else:
         esz = wm_.item_size(en_)
-        calcs = {f_["name"]: [d_.text.replace(" ", "") for d_ in _W.directives(f_["attrs"]) if d_.name == "calc"] for f_ in fi_["fields"]}
+        def _norm(txt):
+            # tokens of the calc expression with `as <type>` casts dropped and named constants of the module replaced
+            # by their compiler-evaluated values, so `ENTRY_SIZE as usize` reads as the number it is
+            toks, out_ = txt.split(), []
+            i_ = 0
+            while i_ < len(toks):
+                if toks[i_] == "as" and i_ + 1 < len(toks):
+                    i_ += 2
+                    continue
+                if re.fullmatch(r"[A-Z][A-Z0-9_]*", toks[i_]):
+                    v_ = prog.const_scalar("fiin::" + toks[i_])
+                    out_.append(str(v_) if v_ is not None else toks[i_])
+                else:
+                    out_.append(toks[i_])
+                i_ += 1
+            t_ = "".join(out_)
+            while t_.startswith("(") and t_.endswith(")") and t_.count("(") == t_.count(")"):
+                inner = t_[1:-1]
+                depth, ok_ = 0, True
+                for ch in inner:
+                    depth += ch == "("
+                    depth -= ch == ")"
+                    if depth < 0:
+                        ok_ = False
+                        break
+                if not ok_:
+                    break
+                t_ = inner
+            return t_
+
+        calcs = {f_["name"]: [_norm(d_.text) for d_ in _W.directives(f_["attrs"]) if d_.name == "calc"] for f_ in fi_["fields"]}
         hdr = [v for k_, v in calcs.items() if v and "entries" not in v[0]]
         ctx.ob("W3", "header-size-word", hdr == [["1024"]], f"computed header words written as {hdr}; the file-info header announces a size of 1024", fi_["file"], fi_["line"])
         tbl = [v[0] for k_, v in calcs.items() if v and "entries" in v[0]]
-        ok_t = len(tbl) == 1 and re.fullmatch(r"\(?\(?entries\.len\(\)\*%d\)?(asi32)?\)?" % (esz or -1), tbl[0]) is not None or (len(tbl) == 1 and re.fullmatch(r"\(?\(?%d\*entries\.len\(\)\)?(asi32)?\)?" % (esz or -1), tbl[0]) is not None)
+        flat = [t_.replace("(", "").replace(")", "") for t_ in tbl]
+        ok_t = len(flat) == 1 and flat[0] in (f"entries.len*{esz}", f"{esz}*entries.len")
         ctx.ob("W3", "table-size-written", bool(ok_t), f"entries_size is written as {tbl}; must be entries.len() * {esz} (the serialised size of one entry, by which the reader divides)", fi_["file"], fi_["line"])
     wbf = prog.body("fiin::FileInfo::write_to_buffer")
     if wbf:
